@@ -27,6 +27,8 @@ TEM = 'task_events_mgr'
 
 
 def check(c):
+    from rules._shared import special_tasks_family_rules
+    special_tasks_family_rules(c, 'C32.family-members')
     ce = c.func(TP, 'TaskPool.clock_expire_tasks')
     pm = [n for n in c.calls(ce, 'process_message')]
     c.exactly('C32.sender', 'expired message in clock_expire_tasks',
@@ -139,6 +141,10 @@ def check(c):
 
 
 VARIANTS = [
+    ('special-family-first-parent-members', 'cylc/flow/config.py',
+     "                    for member in self.runtime['descendants'][name]:",
+     "                    for member in self.get_first_parent_descendants().get(name, ()):",
+     'C32.family-members'),
     ('expire-manual', 'cylc/flow/task_pool.py',
      '''                not itask.is_manual_submit
 
